@@ -228,6 +228,7 @@ def mechanism_ranges(mech: list[str]) -> dict[str, tuple[str, int, int]]:
                 obj = obj.__func__
             if isinstance(obj, property):
                 obj = obj.fget
+        obj = inspect.unwrap(obj) if callable(obj) else obj
         src, first = inspect.getsourcelines(obj)
         fn = os.path.basename(inspect.getsourcefile(obj))
         out[spec] = (fn, first, first + len(src) - 1)
